@@ -97,6 +97,11 @@ func versionEvaluator(c *Ctx, sc verScenario, header bool) *symEval {
 			return b(sc.noHeader)
 		case `NE(HDR(Accept),CONST:"")`:
 			return b(!sc.noHeader)
+		case "FOUND(PS,KEY)":
+			if sc.match {
+				return 1 // the parsed media type carries a listed version: the parameter is present
+			}
+			return 0
 		case "NE(PERR,NIL)":
 			return b(sc.parseErr)
 		case "EQ(PERR,NIL)":
